@@ -1,12 +1,97 @@
-/* Native replay driver for message.c: rebuilds the chunk state of a CBMC
- * counterexample (capacity, data offset, length, arguments), runs the REAL
- * function under ASan/UBSan and checks the byte-string semantics of C17. */
+/* Native replay driver for message.c: rebuilds the message / chunk state of a CBMC
+ * counterexample (capacity, data offset, length, header bytes, reference count,
+ * arguments; entry snapshots vp_in_* / vp_in.* / vp_arg_*), runs the REAL function under
+ * ASan/UBSan and checks the byte-string semantics of C17 and the ownership rules of C03
+ * (every block released exactly once, with its allocation size; nothing leaked).
+ *
+ * Body bytes are a fixed pattern (BYTE(i)) unless the snapshot carries them (the first
+ * four bytes for the *_trim_u32 functions); header bytes are those of the counterexample.
+ * Functions that allocate are run once with every allocation succeeding and then again
+ * with the 1st, 2nd, 3rd allocation failing (the CBMC allocator model may fail). */
 #include "vp_native.h"
 #include "core/message.c" /* the real file, via -I/repo/src */
 
-void *nni_alloc(size_t sz) { return (sz > 0 ? malloc(sz) : NULL); }
-void *nni_zalloc(size_t sz) { return (sz > 0 ? calloc(1, sz) : NULL); }
-void  nni_free(void *p, size_t sz) { (void) sz; free(p); }
+/* ---- allocator with bookkeeping: sized free, double free, leak accounting, failure injection */
+#define VP_NBLK 256
+static struct {
+	void  *p;
+	size_t sz;
+	int    live;
+} vp_blk[VP_NBLK];
+static int vp_nblk, vp_alloc_calls, vp_alloc_fail_at, vp_free_calls;
+
+static void
+vp_reg(void *p, size_t sz)
+{
+	if (p != NULL && vp_nblk < VP_NBLK) {
+		vp_blk[vp_nblk].p    = p;
+		vp_blk[vp_nblk].sz   = sz;
+		vp_blk[vp_nblk].live = 1;
+		vp_nblk++;
+	}
+}
+static int
+vp_live(const void *p)
+{
+	for (int i = vp_nblk - 1; i >= 0; i--)
+		if (vp_blk[i].p == p)
+			return (vp_blk[i].live);
+	return (0);
+}
+static int
+vp_live_count(void)
+{
+	int n = 0;
+	for (int i = 0; i < vp_nblk; i++)
+		n += vp_blk[i].live;
+	return (n);
+}
+static void
+vp_release_all(void)
+{
+	for (int i = 0; i < vp_nblk; i++)
+		if (vp_blk[i].live)
+			free(vp_blk[i].p);
+	vp_nblk = 0;
+}
+static void *
+vp_alloc(size_t sz, int zero)
+{
+	void *p;
+	if (sz == 0)
+		return (NULL);
+	vp_alloc_calls++;
+	if (vp_alloc_fail_at != 0 && vp_alloc_calls == vp_alloc_fail_at)
+		return (NULL);
+	if (sz > ((size_t) 1 << 32))
+		return (NULL); /* out of memory for real */
+	p = zero ? calloc(1, sz) : malloc(sz);
+	vp_reg(p, sz);
+	return (p);
+}
+void *nni_alloc(size_t sz) { return (vp_alloc(sz, 0)); }
+void *nni_zalloc(size_t sz) { return (vp_alloc(sz, 1)); }
+void
+nni_free(void *p, size_t sz)
+{
+	if (p == NULL)
+		return;
+	vp_free_calls++;
+	for (int i = vp_nblk - 1; i >= 0; i--) {
+		if (vp_blk[i].p == p && vp_blk[i].live) {
+			if (vp_blk[i].sz != sz) {
+				printf("nni_free(%p, %zu): block was allocated with %zu bytes\n", p, sz, vp_blk[i].sz);
+				VP_EXPECT(!"nni_free size == allocation size");
+			}
+			vp_blk[i].live = 0;
+			free(p);
+			return;
+		}
+	}
+	printf("nni_free(%p, %zu): not a live block (double free or foreign pointer)\n", p, sz);
+	VP_EXPECT(!"nni_free of a live block");
+	free(p); /* let ASan say what it is */
+}
 void  nni_atomic_init(nni_atomic_int *v) { v->v = 0; }
 void  nni_atomic_set(nni_atomic_int *v, int i) { v->v = i; }
 int   nni_atomic_get(nni_atomic_int *v) { return (v->v); }
@@ -17,11 +102,598 @@ void  nni_panic(const char *fmt, ...) { printf("REPLAY-FAIL: nni_panic(\"%s\") r
 #define BYTE(i) ((uint8_t) (0x41 + ((i) % 53)))
 #define DATA(i) ((uint8_t) (0x80 + ((i) % 101)))
 #define LIMIT ((size_t) 1 << 24)
+#define HCAP ((size_t) 64)
+#define HB(m) ((uint8_t *) (m)->m_header_buf)
+#define NBE32(p) (((uint32_t) (p)[0] << 24) | ((uint32_t) (p)[1] << 16) | ((uint32_t) (p)[2] << 8) | (uint32_t) (p)[3])
+#define IS(name) (strcmp(fn, name) == 0)
+#define SKIP(...)                                  \
+	do {                                           \
+		printf("REPLAY-RESULT: skipped (");        \
+		printf(__VA_ARGS__);                       \
+		printf(")\n");                             \
+		return (3);                                \
+	} while (0)
 
 static int wf(nni_chunk *c)
 {
 	return (c->ch_cap > 0 && c->ch_buf != NULL && c->ch_ptr >= c->ch_buf && c->ch_ptr < c->ch_buf + c->ch_cap &&
 	    c->ch_len <= c->ch_cap - (size_t) (c->ch_ptr - c->ch_buf));
+}
+static size_t offs(nni_chunk *c) { return (c->ch_buf ? (size_t) (c->ch_ptr - c->ch_buf) : 0); }
+
+/* body byte i of the pre-state */
+static uint8_t
+body0(size_t i)
+{
+	if (i < 4) {
+		char k[16];
+		snprintf(k, sizeof(k), "vp_in_b%zu", i);
+		if (vp_has(k))
+			return ((uint8_t) vp_u64(k, 0));
+	}
+	return (BYTE(i));
+}
+
+/* returns 0, or 3 when the state cannot / need not be built */
+static int
+build_chunk(nni_chunk *c, size_t cap, size_t off, size_t len)
+{
+	if (cap > LIMIT)
+		SKIP("capacity %zu too large to build natively", cap);
+	memset(c, 0, sizeof(*c));
+	if (cap == 0)
+		return (0);
+	if (!(off < cap && len <= cap - off))
+		SKIP("counterexample pre-state is not a well-formed chunk");
+	c->ch_cap = cap;
+	c->ch_buf = malloc(cap);
+	vp_reg(c->ch_buf, cap);
+	memset(c->ch_buf, 0xEE, cap);
+	c->ch_ptr = c->ch_buf + off;
+	c->ch_len = len;
+	for (size_t i = 0; i < len; i++)
+		c->ch_ptr[i] = body0(i);
+	return (0);
+}
+
+static uint8_t  h0[64]; /* header bytes of the pre-state */
+static size_t   hlen0, cap0, off0, len0;
+static int      ref0;
+static uint32_t pipe0;
+
+/* message of the counterexample (snapshot `vp_in` = *m, vp_in_moff); body: the snapshot
+ * geometry, or (header-only units, body unconstrained there) a plain 64-byte buffer */
+static int
+build_msg(nni_msg **mp, int with_body)
+{
+	nni_msg *m;
+	hlen0 = vp_u64("vp_in.m_header_len", 0);
+	ref0  = (int) (int32_t) vp_u64("vp_in.m_refcnt.v", 1);
+	pipe0 = (uint32_t) vp_u64("vp_in.m_pipe", 0);
+	if (!vp_has("vp_in.m_header_len") && !(with_body && vp_has("vp_in_cap")))
+		SKIP("trace has no entry snapshot");
+	if (hlen0 > HCAP || ref0 < 1)
+		SKIP("counterexample pre-state is not a well-formed message");
+	/* (vp_in_cap/off/len: inputs recorded with the older chunk-only snapshot of nni_msg_realloc) */
+	cap0 = with_body ? vp_u64("vp_in.m_body.ch_cap", vp_u64("vp_in_cap", 64)) : 64;
+	off0 = with_body ? vp_u64("vp_in_moff", vp_u64("vp_in_off", 0)) : 32;
+	len0 = with_body ? vp_u64("vp_in.m_body.ch_len", vp_u64("vp_in_len", 0)) : 0;
+	if (with_body && cap0 == 0)
+		SKIP("counterexample pre-state has no body buffer");
+	m = malloc(sizeof(*m));
+	memset(m, 0, sizeof(*m));
+	if (build_chunk(&m->m_body, cap0, off0, len0) != 0) {
+		free(m);
+		return (3);
+	}
+	vp_reg(m, sizeof(*m));
+	for (unsigned i = 0; i < 16; i++) {
+		uint32_t dflt = 0;
+		uint8_t  pat[4] = { BYTE(4 * i + 7), BYTE(4 * i + 8), BYTE(4 * i + 9), BYTE(4 * i + 10) };
+		memcpy(&dflt, pat, 4);
+		m->m_header_buf[i] = (uint32_t) vp_fmt(dflt, "vp_in.m_header_buf[%u]", i);
+	}
+	memcpy(h0, m->m_header_buf, 64);
+	m->m_header_len = hlen0;
+	m->m_pipe       = pipe0;
+	m->m_refcnt.v   = ref0;
+	*mp             = m;
+	return (0);
+}
+
+static void
+showhdr(const char *tag, const uint8_t *h, size_t n)
+{
+	printf("%s %zu bytes:", tag, n);
+	for (size_t i = 0; i < n && i < 64; i++)
+		printf(" %02x", h[i]);
+	printf("\n");
+}
+
+static uint8_t *
+mkdata(size_t n, size_t atleast)
+{
+	size_t   sz = n > LIMIT ? atleast : (n > atleast ? n : atleast);
+	uint8_t *d  = malloc(sz ? sz : 1);
+	for (size_t i = 0; i < sz; i++)
+		d[i] = DATA(i);
+	return (d);
+}
+
+/* append / insert oracle on a chunk whose pre-state was (len, bytes body0) */
+static void
+check_edit(nni_chunk *c, int ins, int rv, size_t len, size_t n, int have_data)
+{
+	VP_EXPECT(rv == 0 || rv == NNG_ENOMEM);
+	VP_EXPECT(wf(c));
+	if (rv == 0) {
+		VP_EXPECT(n <= SIZE_MAX - len && c->ch_len == len + n);
+		if (wf(c) && c->ch_len == len + n && c->ch_len <= LIMIT) {
+			size_t bad_old = 0, bad_new = 0;
+			for (size_t i = 0; i < len; i++)
+				bad_old += c->ch_ptr[ins ? i + n : i] != body0(i);
+			for (size_t i = 0; have_data && i < n; i++)
+				bad_new += c->ch_ptr[ins ? i : len + i] != DATA(i);
+			if (bad_old || bad_new)
+				printf("old bytes wrong: %zu of %zu, new bytes wrong: %zu of %zu\n", bad_old, len, bad_new, n);
+			VP_EXPECT(bad_old == 0);
+			VP_EXPECT(bad_new == 0);
+		}
+	} else {
+		VP_EXPECT(c->ch_len == len);
+		for (size_t i = 0; wf(c) && i < len && i < c->ch_len; i++)
+			VP_EXPECT(c->ch_ptr[i] == body0(i));
+	}
+}
+
+static void
+check_frame(nni_msg *m)
+{
+	VP_EXPECT(m->m_header_len == hlen0);
+	VP_EXPECT(m->m_refcnt.v == ref0);
+	VP_EXPECT(m->m_pipe == pipe0);
+	VP_EXPECT(memcmp(m->m_header_buf, h0, 64) == 0);
+}
+
+static int
+replay_chunk(const char *fn)
+{
+	nni_chunk c;
+	size_t    cap = vp_u64("vp_in_cap", 64), off = vp_u64("vp_in_off", 0), len = vp_u64("vp_in_len", 0);
+	size_t    n   = vp_u64("vp_arg_len", 0);
+	int       rc;
+	if ((rc = build_chunk(&c, cap, off, len)) != 0)
+		return (rc);
+	if (IS("nni_chunk_insert") || IS("nni_chunk_append")) {
+		int      ins  = IS("nni_chunk_insert");
+		uint8_t *data = NULL;
+		if (cap == 0)
+			SKIP("counterexample pre-state has no buffer");
+		if (vp_u64("vp_arg_data", 1) && n <= LIMIT)
+			data = mkdata(n, 1);
+		int rv = ins ? nni_chunk_insert(&c, data, n) : nni_chunk_append(&c, data, n);
+		printf("%s(cap=%zu off=%zu len=%zu, n=%zu) -> %d; now cap=%zu off=%zu len=%zu\n", fn, cap, off, len, n, rv,
+		    c.ch_cap, offs(&c), c.ch_len);
+		check_edit(&c, ins, rv, len, n, data != NULL);
+		free(data);
+	} else if (IS("nni_chunk_trim") || IS("nni_chunk_chop")) {
+		int tr = IS("nni_chunk_trim");
+		if (cap == 0)
+			SKIP("counterexample pre-state has no buffer");
+		int rv = tr ? nni_chunk_trim(&c, n) : nni_chunk_chop(&c, n);
+		printf("%s(cap=%zu off=%zu len=%zu, n=%zu) -> %d; now off=%zu len=%zu\n", fn, cap, off, len, n, rv, offs(&c), c.ch_len);
+		VP_EXPECT((rv == NNG_EINVAL) == (n > len));
+		VP_EXPECT(wf(&c));
+		VP_EXPECT(c.ch_len == (rv ? len : len - n));
+		for (size_t i = 0; wf(&c) && i < c.ch_len; i++)
+			VP_EXPECT(c.ch_ptr[i] == body0((rv == 0 && tr) ? i + n : i));
+	} else if (IS("nni_chunk_grow")) {
+		size_t a = vp_u64("vp_arg_newsz", 0), b = vp_u64("vp_arg_headwanted", 0);
+		int    rv = nni_chunk_grow(&c, a, b);
+		printf("nni_chunk_grow(cap=%zu off=%zu len=%zu, newsz=%zu, headwanted=%zu) -> %d; now cap=%zu off=%zu len=%zu\n",
+		    cap, off, len, a, b, rv, c.ch_cap, offs(&c), c.ch_len);
+		if (rv == 0) {
+			VP_EXPECT(wf(&c) && c.ch_len == len);
+			VP_EXPECT(c.ch_cap - offs(&c) >= a);
+			VP_EXPECT(offs(&c) >= b);
+		} else {
+			VP_EXPECT(c.ch_cap == cap && c.ch_len == len && offs(&c) == off);
+		}
+		VP_EXPECT(rv == 0 || rv == NNG_ENOMEM);
+		for (size_t i = 0; wf(&c) && i < len && i < c.ch_len; i++)
+			VP_EXPECT(c.ch_ptr[i] == body0(i));
+	} else if (IS("nni_chunk_free")) {
+		int live = vp_live_count();
+		nni_chunk_free(&c);
+		printf("nni_chunk_free(cap=%zu off=%zu len=%zu); now cap=%zu len=%zu buf=%p ptr=%p\n", cap, off, len, c.ch_cap, c.ch_len,
+		    (void *) c.ch_buf, (void *) c.ch_ptr);
+		VP_EXPECT(c.ch_cap == 0 && c.ch_len == 0 && c.ch_buf == NULL && c.ch_ptr == NULL);
+		VP_EXPECT(vp_live_count() == live - (cap > 0 ? 1 : 0));
+	} else if (IS("nni_chunk_clear")) {
+		if (cap == 0)
+			SKIP("counterexample pre-state has no buffer");
+		nni_chunk_clear(&c);
+		printf("nni_chunk_clear(cap=%zu off=%zu len=%zu); now cap=%zu off=%zu len=%zu\n", cap, off, len, c.ch_cap, offs(&c), c.ch_len);
+		VP_EXPECT(c.ch_len == 0 && wf(&c) && c.ch_cap == cap && offs(&c) == off);
+	} else if (IS("nni_chunk_dup")) {
+		nni_chunk d;
+		if (cap == 0)
+			SKIP("counterexample pre-state has no buffer");
+		memset(&d, 0x5a, sizeof(d));
+		int live = vp_live_count();
+		int rv   = nni_chunk_dup(&d, &c);
+		printf("nni_chunk_dup(src cap=%zu off=%zu len=%zu) -> %d", cap, off, len, rv);
+		if (rv == 0)
+			printf("; copy cap=%zu off=%zu len=%zu", d.ch_cap, offs(&d), d.ch_len);
+		printf("\n");
+		VP_EXPECT(rv == 0 || rv == NNG_ENOMEM);
+		VP_EXPECT(vp_live_count() == live + (rv == 0 ? 1 : 0));
+		VP_EXPECT(c.ch_cap == cap && c.ch_len == len && offs(&c) == off);
+		if (rv == 0) {
+			VP_EXPECT(wf(&d) && d.ch_buf != c.ch_buf);
+			VP_EXPECT(d.ch_cap == cap && d.ch_len == len && offs(&d) == off);
+			for (size_t i = 0; wf(&d) && i < len && i < d.ch_len; i++)
+				VP_EXPECT(d.ch_ptr[i] == body0(i));
+		}
+	} else if (IS("nni_chunk_trim_u32")) {
+		if (cap == 0 || len < 4)
+			SKIP("precondition: at least 4 body bytes");
+		uint32_t want = ((uint32_t) body0(0) << 24) | ((uint32_t) body0(1) << 16) | ((uint32_t) body0(2) << 8) | body0(3);
+		uint32_t v    = nni_chunk_trim_u32(&c);
+		printf("nni_chunk_trim_u32(cap=%zu off=%zu len=%zu, first bytes %02x %02x %02x %02x) -> 0x%08x; now off=%zu len=%zu\n", cap,
+		    off, len, body0(0), body0(1), body0(2), body0(3), v, offs(&c), c.ch_len);
+		VP_EXPECT(v == want);
+		VP_EXPECT(wf(&c) && c.ch_cap == cap);
+		VP_EXPECT(c.ch_len == len - 4);
+		VP_EXPECT(offs(&c) == off + (len - 4 != 0 ? 4 : 0));
+		for (size_t i = 0; wf(&c) && i < c.ch_len && i + 4 < len; i++)
+			VP_EXPECT(c.ch_ptr[i] == body0(i + 4));
+	} else {
+		SKIP("no native driver for %s", fn);
+	}
+	return (0);
+}
+
+/* header functions: the body is not part of their contract */
+static int
+replay_hdr(const char *fn)
+{
+	nni_msg *m;
+	int      rc;
+	size_t   n = vp_u64("vp_arg_len", 0);
+	if ((rc = build_msg(&m, 0)) != 0)
+		return (rc);
+	uint8_t *h = HB(m);
+	showhdr("header before:", h0, hlen0);
+	if (IS("nni_msg_header_append") || IS("nni_msg_header_insert")) {
+		int      ins  = IS("nni_msg_header_insert");
+		uint8_t *data = mkdata(n, 65);
+		int      rv   = ins ? nni_msg_header_insert(m, data, n) : nni_msg_header_append(m, data, n);
+		printf("%s(header_len=%zu, len=%zu) -> %d; header_len now %zu\n", fn, hlen0, n, rv, m->m_header_len);
+		VP_EXPECT(rv == 0 || rv == NNG_EINVAL);
+		VP_EXPECT((rv == NNG_EINVAL) == (hlen0 + n > HCAP));
+		VP_EXPECT(m->m_header_len <= HCAP);
+		VP_EXPECT(m->m_header_len == (rv == 0 ? hlen0 + n : hlen0));
+		if (m->m_header_len <= HCAP) {
+			showhdr("header after: ", h, m->m_header_len);
+			for (size_t i = 0; i < hlen0; i++)
+				VP_EXPECT(h[(rv == 0 && ins) ? i + n : i] == h0[i]);
+			for (size_t i = 0; rv == 0 && i < n; i++)
+				VP_EXPECT(h[ins ? i : hlen0 + i] == DATA(i));
+		}
+		free(data);
+	} else if (IS("nni_msg_header_trim") || IS("nni_msg_header_chop")) {
+		int tr = IS("nni_msg_header_trim");
+		int rv = tr ? nni_msg_header_trim(m, n) : nni_msg_header_chop(m, n);
+		printf("%s(header_len=%zu, len=%zu) -> %d; header_len now %zu\n", fn, hlen0, n, rv, m->m_header_len);
+		VP_EXPECT(rv == 0 || rv == NNG_EINVAL);
+		VP_EXPECT((rv == NNG_EINVAL) == (n > hlen0));
+		VP_EXPECT(m->m_header_len == (rv == 0 ? hlen0 - n : hlen0));
+		if (m->m_header_len <= HCAP) {
+			showhdr("header after: ", h, m->m_header_len);
+			for (size_t i = 0; i < m->m_header_len; i++)
+				VP_EXPECT(h[i] == h0[(rv == 0 && tr) ? i + n : i]);
+		}
+	} else if (IS("nni_msg_header_trim_u32")) {
+		if (hlen0 < 4)
+			SKIP("precondition: at least 4 header bytes");
+		uint32_t v = nni_msg_header_trim_u32(m);
+		printf("nni_msg_header_trim_u32(header_len=%zu) -> 0x%08x; header_len now %zu\n", hlen0, v, m->m_header_len);
+		VP_EXPECT(v == NBE32(h0));
+		VP_EXPECT(m->m_header_len == hlen0 - 4);
+		if (m->m_header_len <= HCAP) {
+			showhdr("header after: ", h, m->m_header_len);
+			for (size_t i = 0; i < m->m_header_len && i + 4 < hlen0; i++)
+				VP_EXPECT(h[i] == h0[i + 4]);
+		}
+	} else if (IS("nni_msg_header_append_u32")) {
+		uint32_t val = (uint32_t) vp_u64("vp_arg_val", 0x01020304);
+		if (!(hlen0 + 4 < HCAP))
+			SKIP("precondition: header_len + 4 < 64");
+		nni_msg_header_append_u32(m, val);
+		printf("nni_msg_header_append_u32(header_len=%zu, val=0x%08x); header_len now %zu\n", hlen0, val, m->m_header_len);
+		VP_EXPECT(m->m_header_len == hlen0 + 4);
+		showhdr("header after: ", h, VP_MIN(m->m_header_len, HCAP));
+		VP_EXPECT(NBE32(h + hlen0) == val);
+		for (size_t i = 0; i < hlen0; i++)
+			VP_EXPECT(h[i] == h0[i]);
+	} else if (IS("nni_msg_header_peek_u32")) {
+		uint32_t v = nni_msg_header_peek_u32(m);
+		printf("nni_msg_header_peek_u32() -> 0x%08x\n", v);
+		VP_EXPECT(v == NBE32(h0));
+		VP_EXPECT(m->m_header_len == hlen0 && memcmp(h, h0, 64) == 0);
+	} else if (IS("nni_msg_header_poke_u32")) {
+		uint32_t val = (uint32_t) vp_u64("vp_arg_val", 0x01020304);
+		nni_msg_header_poke_u32(m, val);
+		printf("nni_msg_header_poke_u32(val=0x%08x)\n", val);
+		showhdr("header after: ", h, m->m_header_len < 4 ? 4 : VP_MIN(m->m_header_len, HCAP));
+		VP_EXPECT(NBE32(h) == val);
+		VP_EXPECT(m->m_header_len == hlen0);
+		for (size_t i = 4; i < HCAP; i++)
+			VP_EXPECT(h[i] == h0[i]);
+	} else if (IS("nni_msg_clone")) {
+		if (ref0 == INT32_MAX)
+			SKIP("precondition: reference count below INT32_MAX");
+		nni_msg_clone(m);
+		printf("nni_msg_clone(refcnt=%d); refcnt now %d\n", ref0, m->m_refcnt.v);
+		VP_EXPECT(m->m_refcnt.v == ref0 + 1);
+	} else if (IS("nni_msg_shared")) {
+		bool b = nni_msg_shared(m);
+		printf("nni_msg_shared(refcnt=%d) -> %d\n", ref0, (int) b);
+		VP_EXPECT(b == (ref0 > 1));
+		VP_EXPECT(m->m_refcnt.v == ref0);
+	} else if (IS("nni_msg_set_pipe")) {
+		uint32_t pid = (uint32_t) vp_u64("vp_arg_pid", 7);
+		nni_msg_set_pipe(m, pid);
+		VP_EXPECT(m->m_pipe == pid);
+		VP_EXPECT(m->m_header_len == hlen0 && m->m_refcnt.v == ref0 && memcmp(h, h0, 64) == 0);
+	} else if (IS("nni_msg_get_pipe")) {
+		VP_EXPECT(nni_msg_get_pipe(m) == pipe0);
+	} else {
+		SKIP("no native driver for %s", fn);
+	}
+	return (0);
+}
+
+/* result of pull_up / contents of a copy: header bytes followed by body bytes */
+static void
+check_flat(nni_msg *r, size_t hl, size_t bl)
+{
+	VP_EXPECT(r->m_header_len == 0 && r->m_refcnt.v == 1);
+	VP_EXPECT(wf(&r->m_body));
+	VP_EXPECT(r->m_body.ch_len == hl + bl);
+	if (wf(&r->m_body) && r->m_body.ch_len == hl + bl) {
+		size_t bad = 0;
+		for (size_t i = 0; i < hl; i++)
+			bad += r->m_body.ch_ptr[i] != h0[i];
+		for (size_t i = 0; i < bl; i++)
+			bad += r->m_body.ch_ptr[hl + i] != body0(i);
+		if (bad)
+			printf("result body is not header || body: %zu of %zu bytes differ\n", bad, hl + bl);
+		VP_EXPECT(bad == 0);
+	}
+}
+
+static int
+replay_msg(const char *fn)
+{
+	nni_msg *m;
+	int      rc;
+	size_t   n = vp_u64("vp_arg_len", 0);
+	if (IS("nni_msg_free") && vp_has("vp_arg_m") && vp_u64("vp_arg_m", 1) == 0) {
+		nni_msg_free(NULL);
+		printf("nni_msg_free(NULL)\n");
+		VP_EXPECT(vp_free_calls == 0);
+		return (0);
+	}
+	if ((rc = build_msg(&m, 1)) != 0)
+		return (rc);
+	nni_chunk *c    = &m->m_body;
+	int        live = vp_live_count();
+	if (IS("nni_msg_append") || IS("nni_msg_insert")) {
+		int      ins  = IS("nni_msg_insert");
+		uint8_t *data = NULL;
+		if (vp_u64("vp_arg_data", 1) && n <= LIMIT)
+			data = mkdata(n, 1);
+		int rv = ins ? nni_msg_insert(m, data, n) : nni_msg_append(m, data, n);
+		printf("%s(cap=%zu off=%zu len=%zu, n=%zu) -> %d; now cap=%zu off=%zu len=%zu\n", fn, cap0, off0, len0, n, rv, c->ch_cap,
+		    offs(c), c->ch_len);
+		check_edit(c, ins, rv, len0, n, data != NULL);
+		check_frame(m);
+		VP_EXPECT(vp_live_count() == live);
+		free(data);
+	} else if (IS("nni_msg_trim") || IS("nni_msg_chop")) {
+		int tr = IS("nni_msg_trim");
+		int rv = tr ? nni_msg_trim(m, n) : nni_msg_chop(m, n);
+		printf("%s(cap=%zu off=%zu len=%zu, n=%zu) -> %d; now off=%zu len=%zu\n", fn, cap0, off0, len0, n, rv, offs(c), c->ch_len);
+		VP_EXPECT((rv == NNG_EINVAL) == (n > len0));
+		VP_EXPECT(rv == 0 || rv == NNG_EINVAL);
+		VP_EXPECT(wf(c) && c->ch_cap == cap0);
+		VP_EXPECT(c->ch_len == (rv ? len0 : len0 - n));
+		if (tr && wf(c))
+			VP_EXPECT(offs(c) == off0 + ((rv == 0 && c->ch_len != 0) ? n : 0));
+		if (!tr)
+			VP_EXPECT(offs(c) == off0);
+		for (size_t i = 0; wf(c) && i < c->ch_len && i < len0; i++)
+			VP_EXPECT(c->ch_ptr[i] == body0((rv == 0 && tr) ? i + n : i));
+		check_frame(m);
+	} else if (IS("nni_msg_trim_u32")) {
+		if (len0 < 4)
+			SKIP("precondition: at least 4 body bytes");
+		uint32_t want = ((uint32_t) body0(0) << 24) | ((uint32_t) body0(1) << 16) | ((uint32_t) body0(2) << 8) | body0(3);
+		uint32_t v    = nni_msg_trim_u32(m);
+		printf("nni_msg_trim_u32(cap=%zu off=%zu len=%zu, first bytes %02x %02x %02x %02x) -> 0x%08x; now off=%zu len=%zu\n", cap0, off0,
+		    len0, body0(0), body0(1), body0(2), body0(3), v, offs(c), c->ch_len);
+		VP_EXPECT(v == want);
+		VP_EXPECT(wf(c) && c->ch_cap == cap0);
+		VP_EXPECT(c->ch_len == len0 - 4);
+		VP_EXPECT(offs(c) == off0 + (len0 - 4 != 0 ? 4 : 0));
+		for (size_t i = 0; wf(c) && i < c->ch_len && i + 4 < len0; i++)
+			VP_EXPECT(c->ch_ptr[i] == body0(i + 4));
+		check_frame(m);
+	} else if (IS("nni_msg_clear")) {
+		nni_msg_clear(m);
+		printf("nni_msg_clear(cap=%zu off=%zu len=%zu); now off=%zu len=%zu\n", cap0, off0, len0, offs(c), c->ch_len);
+		VP_EXPECT(c->ch_len == 0 && wf(c) && c->ch_cap == cap0 && offs(c) == off0);
+		check_frame(m);
+	} else if (IS("nni_msg_capacity")) {
+		size_t v = nni_msg_capacity(m);
+		printf("nni_msg_capacity(cap=%zu off=%zu len=%zu) -> %zu\n", cap0, off0, len0, v);
+		VP_EXPECT(v == cap0 - off0 && v >= len0);
+	} else if (IS("nni_msg_reserve")) {
+		size_t a  = vp_u64("vp_arg_capacity", 0);
+		int    rv = nni_msg_reserve(m, a);
+		printf("nni_msg_reserve(cap=%zu off=%zu len=%zu, capacity=%zu) -> %d; now cap=%zu off=%zu len=%zu\n", cap0, off0, len0, a, rv,
+		    c->ch_cap, offs(c), c->ch_len);
+		VP_EXPECT(rv == 0 || rv == NNG_ENOMEM);
+		VP_EXPECT(wf(c) && c->ch_len == len0);
+		if (rv == 0) {
+			VP_EXPECT(c->ch_cap - offs(c) >= a);
+			VP_EXPECT(offs(c) >= off0 && c->ch_cap >= cap0);
+			VP_EXPECT(nni_msg_capacity(m) >= a);
+		} else {
+			VP_EXPECT(c->ch_cap == cap0 && offs(c) == off0);
+		}
+		if (a <= cap0 - off0)
+			VP_EXPECT(rv == 0 && c->ch_cap == cap0 && offs(c) == off0);
+		for (size_t i = 0; wf(c) && i < len0 && i < c->ch_len; i++)
+			VP_EXPECT(c->ch_ptr[i] == body0(i));
+		check_frame(m);
+		VP_EXPECT(vp_live_count() == live);
+	} else if (IS("nni_msg_realloc")) {
+		size_t a  = vp_u64("vp_arg_sz", 0);
+		int    rv = nni_msg_realloc(m, a);
+		printf("nni_msg_realloc(cap=%zu off=%zu len=%zu, sz=%zu) -> %d; now cap=%zu len=%zu capacity=%zu\n", cap0, off0, len0, a, rv,
+		    c->ch_cap, c->ch_len, wf(c) ? nni_msg_capacity(m) : 0);
+		VP_EXPECT(rv == 0 || rv == NNG_ENOMEM);
+		VP_EXPECT(wf(c));
+		VP_EXPECT(c->ch_len == (rv == 0 ? a : len0));
+		if (a <= cap0 - off0)
+			VP_EXPECT(rv == 0 && offs(c) == off0 && c->ch_cap == cap0);
+		for (size_t i = 0; wf(c) && i < len0 && i < c->ch_len; i++)
+			VP_EXPECT(c->ch_ptr[i] == body0(i));
+		check_frame(m);
+		VP_EXPECT(vp_live_count() == live);
+	} else if (IS("nni_msg_dup")) {
+		nni_msg *d  = (nni_msg *) (uintptr_t) 0x5a5a;
+		int      rv = nni_msg_dup(&d, m);
+		printf("nni_msg_dup(header_len=%zu cap=%zu off=%zu len=%zu) -> %d\n", hlen0, cap0, off0, len0, rv);
+		VP_EXPECT(rv == 0 || rv == NNG_ENOMEM);
+		VP_EXPECT(vp_live_count() == live + (rv == 0 ? 2 : 0));
+		check_frame(m);
+		VP_EXPECT(c->ch_cap == cap0 && c->ch_len == len0 && offs(c) == off0);
+		if (rv != 0) {
+			VP_EXPECT(d == (nni_msg *) (uintptr_t) 0x5a5a);
+		} else {
+			VP_EXPECT(d != m && vp_live(d));
+			VP_EXPECT(d->m_header_len == hlen0 && d->m_refcnt.v == 1 && d->m_pipe == pipe0);
+			VP_EXPECT(wf(&d->m_body) && d->m_body.ch_buf != c->ch_buf);
+			VP_EXPECT(d->m_body.ch_cap == cap0 && d->m_body.ch_len == len0 && offs(&d->m_body) == off0);
+			for (size_t i = 0; wf(&d->m_body) && i < len0 && i < d->m_body.ch_len; i++)
+				VP_EXPECT(d->m_body.ch_ptr[i] == body0(i));
+			VP_EXPECT(memcmp(d->m_header_buf, h0, hlen0) == 0);
+		}
+	} else if (IS("nni_msg_free")) {
+		void *buf = c->ch_buf;
+		nni_msg_free(m);
+		printf("nni_msg_free(refcnt=%d): message %s, body buffer %s\n", ref0, vp_live(m) ? "kept" : "released",
+		    vp_live(buf) ? "kept" : "released");
+		if (ref0 == 1) {
+			VP_EXPECT(!vp_live(m) && !vp_live(buf) && vp_live_count() == live - 2);
+		} else {
+			VP_EXPECT(vp_live(m) && vp_live(buf) && vp_live_count() == live);
+			if (vp_live(m))
+				VP_EXPECT(m->m_refcnt.v == ref0 - 1);
+		}
+	} else if (IS("nni_msg_unique")) {
+		nni_msg *r = nni_msg_unique(m);
+		printf("nni_msg_unique(refcnt=%d header_len=%zu len=%zu) -> %s\n", ref0, hlen0, len0,
+		    r == m ? "the same message" : r == NULL ? "NULL" : "a copy");
+		if (ref0 == 1) {
+			VP_EXPECT(r == m && m->m_refcnt.v == 1 && vp_live_count() == live);
+		} else {
+			VP_EXPECT(r != m);
+			VP_EXPECT(vp_live(m) && vp_live(c->ch_buf));
+			if (vp_live(m))
+				VP_EXPECT(m->m_refcnt.v == ref0 - 1);
+			VP_EXPECT(vp_live_count() == live + (r != NULL ? 2 : 0));
+			if (r != NULL && vp_live(r)) {
+				VP_EXPECT(r->m_refcnt.v == 1 && r->m_header_len == hlen0 && r->m_body.ch_len == len0);
+				VP_EXPECT(wf(&r->m_body));
+				for (size_t i = 0; wf(&r->m_body) && i < len0 && i < r->m_body.ch_len; i++)
+					VP_EXPECT(r->m_body.ch_ptr[i] == body0(i));
+				VP_EXPECT(memcmp(r->m_header_buf, h0, hlen0) == 0);
+			}
+		}
+	} else if (IS("nni_msg_pull_up")) {
+		void    *buf = c->ch_buf;
+		nni_msg *r   = nni_msg_pull_up(m);
+		printf("nni_msg_pull_up(refcnt=%d header_len=%zu cap=%zu off=%zu len=%zu) -> %s\n", ref0, hlen0, cap0, off0, len0,
+		    r == m ? "in place" : r == NULL ? "NULL" : "a copy");
+		if (r == NULL) {
+			/* failure: the original is still the caller's, unchanged */
+			VP_EXPECT(vp_live(m) && vp_live(buf) && vp_live_count() == live);
+			if (vp_live(m)) {
+				check_frame(m);
+				VP_EXPECT(c->ch_len == len0);
+			}
+		} else if (r == m) {
+			VP_EXPECT(ref0 == 1);
+			VP_EXPECT(vp_live_count() == live);
+			check_flat(m, hlen0, len0);
+		} else {
+			VP_EXPECT(vp_live(r));
+			if (vp_live(r))
+				check_flat(r, hlen0, len0);
+			if (ref0 > 1) {
+				VP_EXPECT(vp_live(m) && vp_live_count() == live + 2);
+				if (vp_live(m))
+					VP_EXPECT(m->m_refcnt.v == ref0 - 1);
+			} else {
+				VP_EXPECT(!vp_live(m) && !vp_live(buf) && vp_live_count() == live);
+			}
+		}
+	} else {
+		SKIP("no native driver for %s", fn);
+	}
+	return (0);
+}
+
+static int
+replay_once(const char *fn, int fail_at)
+{
+	int rc;
+	vp_alloc_calls   = 0;
+	vp_free_calls    = 0;
+	vp_alloc_fail_at = fail_at;
+	if (fail_at)
+		printf("-- again, allocation #%d fails --\n", fail_at);
+	if (IS("nni_msg_alloc")) {
+		size_t   sz = vp_u64("vp_arg_sz", 0);
+		nni_msg *m  = (nni_msg *) (uintptr_t) 0x5a5a;
+		int      rv = nni_msg_alloc(&m, sz);
+		printf("nni_msg_alloc(sz=%zu) -> %d\n", sz, rv);
+		VP_EXPECT(rv == 0 || rv == NNG_ENOMEM);
+		VP_EXPECT(vp_live_count() == (rv == 0 ? 2 : 0));
+		if (rv == 0) {
+			int p2 = sz >= 1024 && (sz & (sz - 1)) == 0;
+			VP_EXPECT(wf(&m->m_body) && m->m_body.ch_len == sz);
+			VP_EXPECT(m->m_header_len == 0 && m->m_refcnt.v == 1);
+			VP_EXPECT(offs(&m->m_body) == (p2 ? 0 : 32) && m->m_body.ch_cap == (p2 ? sz : sz + 64));
+		} else {
+			VP_EXPECT(m == (nni_msg *) (uintptr_t) 0x5a5a);
+		}
+		rc = 0;
+	} else if (strncmp(fn, "nni_chunk_", 10) == 0) {
+		rc = replay_chunk(fn);
+	} else if (strncmp(fn, "nni_msg_header_", 15) == 0 || IS("nni_msg_clone") || IS("nni_msg_shared") || IS("nni_msg_set_pipe") ||
+	    IS("nni_msg_get_pipe")) {
+		rc = replay_hdr(fn);
+	} else {
+		rc = replay_msg(fn);
+	}
+	vp_release_all();
+	return (rc);
 }
 
 int
@@ -33,109 +705,12 @@ main(int argc, char **argv)
 	}
 	vp_load(argv[1]);
 	const char *fn = argv[2];
-	if (strcmp(fn, "nni_msg_alloc") == 0) {
-		size_t   sz = vp_u64("vp_arg_sz", 0);
-		nni_msg *m  = NULL;
-		int      rv = nni_msg_alloc(&m, sz);
-		printf("nni_msg_alloc(sz=%zu) -> %d\n", sz, rv);
-		VP_EXPECT(rv == 0 || rv == NNG_ENOMEM);
-		if (rv == 0) {
-			VP_EXPECT(wf(&m->m_body) && m->m_body.ch_len == sz);
-			nni_msg_free(m);
-		}
-		VP_DONE();
-	}
-	nni_chunk c;
-	size_t    cap = vp_u64("vp_in_cap", 64), off = vp_u64("vp_in_off", 0), len = vp_u64("vp_in_len", 0);
-	if (cap > LIMIT) {
-		printf("REPLAY-RESULT: skipped (capacity %zu too large to build natively)\n", cap);
-		return 3;
-	}
-	if (cap == 0) {
-		memset(&c, 0, sizeof(c));
-	} else {
-		if (!(off < cap && len <= cap - off)) {
-			printf("REPLAY-RESULT: skipped (counterexample pre-state is not a well-formed chunk)\n");
-			return 3;
-		}
-		c.ch_cap = cap;
-		c.ch_buf = malloc(cap);
-		c.ch_ptr = c.ch_buf + off;
-		c.ch_len = len;
-		for (size_t i = 0; i < len; i++)
-			c.ch_ptr[i] = BYTE(i);
-	}
-	size_t n = vp_u64("vp_arg_len", 0);
-	if (strcmp(fn, "nni_chunk_insert") == 0 || strcmp(fn, "nni_chunk_append") == 0) {
-		int      ins  = strcmp(fn, "nni_chunk_insert") == 0;
-		uint8_t *data = NULL;
-		if (vp_u64("vp_arg_data", 1) && n <= LIMIT) {
-			data = malloc(n ? n : 1);
-			for (size_t i = 0; i < n; i++)
-				data[i] = DATA(i);
-		}
-		int rv = ins ? nni_chunk_insert(&c, data, n) : nni_chunk_append(&c, data, n);
-		printf("%s(cap=%zu off=%zu len=%zu, n=%zu) -> %d; now cap=%zu off=%zu len=%zu\n", fn, cap, off, len, n, rv,
-		    c.ch_cap, (size_t) (c.ch_ptr - c.ch_buf), c.ch_len);
-		VP_EXPECT(rv == 0 || rv == NNG_ENOMEM);
-		VP_EXPECT(wf(&c));
-		if (rv == 0) {
-			VP_EXPECT(n <= SIZE_MAX - len && c.ch_len == len + n);
-			if (wf(&c) && c.ch_len == len + n && c.ch_len <= LIMIT) {
-				size_t bad_old = 0, bad_new = 0;
-				for (size_t i = 0; i < len; i++)
-					bad_old += c.ch_ptr[ins ? i + n : i] != BYTE(i);
-				for (size_t i = 0; data && i < n; i++)
-					bad_new += c.ch_ptr[ins ? i : len + i] != DATA(i);
-				if (bad_old || bad_new)
-					printf("old bytes wrong: %zu of %zu, new bytes wrong: %zu of %zu\n", bad_old, len, bad_new, n);
-				VP_EXPECT(bad_old == 0);
-				VP_EXPECT(bad_new == 0);
-			}
-		} else {
-			VP_EXPECT(c.ch_len == len);
-		}
-		free(data);
-	} else if (strcmp(fn, "nni_chunk_trim") == 0 || strcmp(fn, "nni_chunk_chop") == 0) {
-		int tr = strcmp(fn, "nni_chunk_trim") == 0;
-		int rv = tr ? nni_chunk_trim(&c, n) : nni_chunk_chop(&c, n);
-		VP_EXPECT((rv == NNG_EINVAL) == (n > len));
-		VP_EXPECT(wf(&c));
-		VP_EXPECT(c.ch_len == (rv ? len : len - n));
-		for (size_t i = 0; wf(&c) && i < c.ch_len; i++)
-			VP_EXPECT(c.ch_ptr[i] == BYTE((rv == 0 && tr) ? i + n : i));
-	} else if (strcmp(fn, "nni_chunk_grow") == 0 || strcmp(fn, "nni_msg_realloc") == 0) {
-		size_t a = vp_u64("vp_arg_newsz", vp_u64("vp_arg_sz", 0)), b = vp_u64("vp_arg_headwanted", 0);
-		int    rv;
-		if (strcmp(fn, "nni_chunk_grow") == 0) {
-			rv = nni_chunk_grow(&c, a, b);
-			printf("nni_chunk_grow(cap=%zu off=%zu len=%zu, newsz=%zu, headwanted=%zu) -> %d; now cap=%zu off=%zu len=%zu\n",
-			    cap, off, len, a, b, rv, c.ch_cap, c.ch_buf ? (size_t) (c.ch_ptr - c.ch_buf) : 0, c.ch_len);
-			if (rv == 0) {
-				VP_EXPECT(wf(&c) && c.ch_len == len);
-				VP_EXPECT(c.ch_cap - (size_t) (c.ch_ptr - c.ch_buf) >= a);
-				VP_EXPECT((size_t) (c.ch_ptr - c.ch_buf) >= b);
-			}
-		} else {
-			nni_msg m;
-			memset(&m, 0, sizeof(m));
-			m.m_body = c;
-			rv       = nni_msg_realloc(&m, a);
-			c        = m.m_body;
-			printf("nni_msg_realloc(cap=%zu off=%zu len=%zu, sz=%zu) -> %d; now cap=%zu len=%zu capacity=%zu\n", cap,
-			    off, len, a, rv, c.ch_cap, c.ch_len, nni_msg_capacity(&m));
-			if (rv == 0) {
-				VP_EXPECT(c.ch_len == a);
-			}
-			VP_EXPECT(wf(&c));
-		}
-		VP_EXPECT(rv == 0 || rv == NNG_ENOMEM);
-		for (size_t i = 0; wf(&c) && i < len && i < c.ch_len; i++)
-			VP_EXPECT(c.ch_ptr[i] == BYTE(i));
-	} else {
-		printf("REPLAY-RESULT: skipped (no native driver for %s)\n", fn);
-		return 3;
-	}
-	free(c.ch_buf);
+	int         rc = replay_once(fn, 0);
+	if (rc != 0)
+		return (rc);
+	/* the same call when an allocation fails (k-th request), as the CBMC allocator model may */
+	int nalloc = vp_alloc_calls;
+	for (int k = 1; k <= nalloc && k <= 3; k++)
+		(void) replay_once(fn, k);
 	VP_DONE();
 }
